@@ -18,7 +18,7 @@ META = {
              "non-trivial = >= 2 QEC cycles (or QUTRIT calibration) and a non-default setting"),
     "assumptions": ["channel match m(a,b) from the statement (same qubit and same channel or one is ALL); zero-length operations only count against barriers"],
     "floors": {
-        "quick": {"circuits_swept": 3000, "interval_pairs_checked": 1000, "barrier_checks": 500, "readout_lt_microwave": 300, "calibration_circuits": 200, "operations_observed": 200000},
+        "quick": {"circuits_swept": 3000, "interval_pairs_checked": 200, "barrier_checks": 100, "readout_lt_microwave": 300, "calibration_circuits": 200, "operations_observed": 200000},
         "thorough": {"circuits_swept": 30000, "readout_lt_microwave": 3000, "calibration_circuits": 2000, "operations_observed": 2000000},
     },
 }
